@@ -37,11 +37,31 @@ def _fill_buffers(name, a, rng, fill=None):
             n = n // 8
         if name == 'bidib_send_lc_configx_set':
             n = 2 * n
-        buf = bytearray((fill if fill is not None else rng.randrange(1, 256)) if True else 0 for _ in range(n))
+        buf = bytearray(n)
         for i in range(n):
-            buf[i] = ((i * 7 + 1) % 200) + 0x30 if fill is None else fill   # distinct, non-zero, no white space
+            buf[i] = ((i * 7 + 1) % 200) + 0x30 if (fill is None or isinstance(fill, tuple)) else fill   # distinct, non-zero, no white space
+        if isinstance(fill, tuple):
+            # mixed content: the buffers are length-prefixed byte arrays, not C strings - zero bytes in front of / between other bytes,
+            # arbitrary bytes (seeded)
+            kind, sd = fill
+            import random as _r
+            rr = _r.Random(sd)
+            for i in range(n):
+                buf[i] = ((i * 11 + 3) % 250) + 1
+            if kind == 'zero-first' and n:
+                buf[0] = 0
+            elif kind == 'zero-mid' and n > 2:
+                buf[rr.randrange(1, n - 1)] = 0
+            elif kind == 'zeros' and n:
+                for i in range(0, n, 2):
+                    buf[i] = 0
+            elif kind == 'random':
+                for i in range(n):
+                    buf[i] = rr.choice([0, 0, 1, 0x20, 0x7F, 0x80, 0xFE, 0xFD, 0xFF, rr.randrange(256)])
         if name == 'bidib_send_accessory_para_set_macromap' and n > 0 and a.get('_last_ff', True):
             buf[n - 1] = 0xFF
+        if name == 'bidib_send_fw_update_op_data' and isinstance(fill, tuple):
+            buf = bytearray(x if x not in S.WS else 0x41 for x in buf)
         a[b] = bytes(buf)
 
 def gen_cases(ctx):
@@ -75,6 +95,20 @@ def gen_cases(ctx):
                     if name == 'bidib_send_accessory_para_set_macromap' and a['size'] > 0 and a['_last_ff'] and fill != 0xFF:
                         a['data'] = a['data'][:-1] + b'\xff'
                     cases.append((name, ad, a))
+            for ad in ADDRS:
+                for vi, kind in enumerate(('zero-first', 'zero-mid', 'zeros', 'random', 'random', 'random')):
+                    for ln in (None, 3, 7):
+                        a = dict(base)
+                        a['_last_ff'] = True
+                        for bl in set(BUF_LEN_ARG.values()) & set(r['args']):
+                            if ln is not None and name not in ('bidib_send_bm_mirror_multiple',):
+                                a2 = dict(a)
+                                a2[bl] = ln
+                                _fill_buffers(name, a2, rng, fill=(kind, vi * 131 + (ln or 0) + len(name)))
+                                if S.expected(name, ad, a2)[0] == 'accept':
+                                    a = a2
+                        _fill_buffers(name, a, rng, fill=(kind, vi * 131 + (ln or 0) + len(name)))
+                        cases.append((name, ad if r['has_addr'] else (0, 0, 0), a))
         if thorough:
             # pairs of scalars at boundary values
             B = [0, 1, 7, 8, 16, 17, 31, 32, 59, 60, 63, 64, 70, 71, 118, 119, 120, 121, 122, 127, 128, 151, 152, 191, 192, 223, 224, 250, 251, 254, 255]
@@ -149,7 +183,7 @@ def check_case(ctx, case, evs):
 def run(ctx):
     cases = gen_cases(ctx)
     ctx.rule = ('boundary sweep: every public bidib_send_* x each scalar argument over 0..255 (others at a valid default) x '
-                'address depth 0-3 x buffer lengths 0..max+1 with distinct non-zero fill and white-space/FE/FD fills; thorough adds '
+                'address depth 0-3 x buffer lengths 0..max+1 with distinct non-zero fill, white-space/FE/FD/00/FF fills and mixed content (zero bytes in front of / between other bytes, seeded random bytes); thorough adds '
                 'pairs of scalars at boundary values. non-trivial = distinct (function, accept/reject/either, depth, data length) '
                 'whose expected message was found on the wire')
     ctx.assumptions = ['spec table vlib/spec_lowlevel.py (from header docs + bidib_messages.h)', 'low-level debug mode bypasses only the uplink dispatch',
